@@ -1,19 +1,6 @@
 import JediModel.Proto
-import JediModel.Model.Search
-import JediModel.Gen.C19
+import JediModel.Model.WalkSrc
 open Lean Proto JediModel.Walk JediModel.Search
-
-/-- the configuration the translator found in the source -/
-def srcCfg : Cfg :=
-  { ignoreFolders := JediModel.Gen.C19.ignoreFolders.map String.toList
-    pySuffixes := JediModel.Gen.C19.pySuffixes.map String.toList
-    gitignoreName := JediModel.Gen.C19.gitignoreName.toList
-    conjuncts := JediModel.Gen.C19.folderFilterConjuncts
-    skipPrefixes := JediModel.Gen.C19.gitignoreSkipPrefixes
-    skipContains := JediModel.Gen.C19.gitignoreSkipContains }
-
-def srcAlias : List (Str × Str) :=
-  JediModel.Gen.C19.searchTypeAlias.map fun p => (p.1.toList, p.2.toList)
 
 def parseFile (j : Json) : FileEnt := { name := chars j "name", content := chars j "content" }
 
